@@ -14,6 +14,7 @@ import (
 	"path/filepath"
 	"sort"
 	"strings"
+	"sync"
 
 	"golang.org/x/tools/go/ssa"
 )
@@ -172,30 +173,41 @@ func selfTest(cx *CheckCtx) []selfTestResult {
 	}
 	out = append(out, selfTestResult{Seed: "(unmodified copy)", Expected: "silent", Outcome: "silent"})
 	os.RemoveAll(clean)
-	for _, dir := range mine {
-		name := filepath.Base(dir)
-		if filepath.Base(filepath.Dir(dir)) == "benign" {
-			name = "benign/" + name
-		}
-		work := filepath.Join(tmp, strings.ReplaceAll(name, "/", "_"))
-		if err := copyTree(work); err != nil {
-			out = append(out, selfTestResult{Seed: name, Expected: exp[dir], Outcome: "skipped", Note: err.Error()})
-			continue
-		}
-		ap := exec.Command("git", "apply", filepath.Join(dir, "patch.diff"))
-		ap.Dir = work
-		if err := ap.Run(); err != nil {
-			out = append(out, selfTestResult{Seed: name, Expected: exp[dir], Outcome: "skipped", Note: "patch no longer applies to the working tree"})
-			os.RemoveAll(work)
-			continue
-		}
-		code, rs := runOn(work)
-		res := selfTestResult{Seed: name, Expected: exp[dir], Outcome: "silent", Rules: rs}
-		if code != 0 {
-			res.Outcome = "fired"
-		}
-		out = append(out, res)
-		os.RemoveAll(work)
+	// the copies are independent: run them six at a time
+	results := make([]selfTestResult, len(mine))
+	sem := make(chan struct{}, 6)
+	var wg sync.WaitGroup
+	for i, dir := range mine {
+		wg.Add(1)
+		go func(i int, dir string) {
+			defer wg.Done()
+			sem <- struct{}{}
+			defer func() { <-sem }()
+			name := filepath.Base(dir)
+			if filepath.Base(filepath.Dir(dir)) == "benign" {
+				name = "benign/" + name
+			}
+			work := filepath.Join(tmp, strings.ReplaceAll(name, "/", "_"))
+			defer os.RemoveAll(work)
+			if err := copyTree(work); err != nil {
+				results[i] = selfTestResult{Seed: name, Expected: exp[dir], Outcome: "skipped", Note: err.Error()}
+				return
+			}
+			ap := exec.Command("git", "apply", filepath.Join(dir, "patch.diff"))
+			ap.Dir = work
+			if err := ap.Run(); err != nil {
+				results[i] = selfTestResult{Seed: name, Expected: exp[dir], Outcome: "skipped", Note: "patch no longer applies to the working tree"}
+				return
+			}
+			code, rs := runOn(work)
+			res := selfTestResult{Seed: name, Expected: exp[dir], Outcome: "silent", Rules: rs}
+			if code != 0 {
+				res.Outcome = "fired"
+			}
+			results[i] = res
+		}(i, dir)
 	}
+	wg.Wait()
+	out = append(out, results...)
 	return out
 }
